@@ -208,7 +208,9 @@ pub fn concretise_field(case: &Value, map: usize) -> (String, Vec<String>) {
                     *n += 1;
                     // epoch form: IDENT(epoch) COLON IDENT(version): look ahead to see whether a COLON with role ver follows
                     let is_epoch_part = *n == 1 && kinds.get(i + 1) == Some(&"COLON") && roles[i + 1][0] == "ver";
-                    if is_epoch_part { ["1", "10", "2", "0"][(map + e as usize) % 4].to_string() } else { VERS[map % 2][(e as usize + r as usize) % VERS[map % 2].len()].to_string() }
+                    let more_follows = *n >= 2 && kinds.get(i + 1) == Some(&"COLON") && roles[i + 1][0] == "ver";
+                    if more_follows { "2".to_string() }      // "1:2:3...": a further colon inside the upstream part
+                    else if is_epoch_part { ["1", "10", "2", "0"][(map + e as usize) % 4].to_string() } else { VERS[map % 2][(e as usize + r as usize) % VERS[map % 2].len()].to_string() }
                 }
                 "arch" => { arch_n += 1; if map == 2 { ARCHS[arch_n % 2].to_string() } else { ARCHS[(arch_n + map) % ARCHS.len()].to_string() } }   // (map 2: repeated architectures)
                 "prof" => { prof_n += 1; PROFS[(prof_n + map) % PROFS.len()].to_string() }
